@@ -95,9 +95,10 @@ Section Recorded.
   Hypothesis srv_accepted : forall n cur e v,
     fst (srv n cur e v) = Accepted -> snd (srv n cur e v) = v.
 
-  (** Accepted refs, and only those (see [C45_rejected_untouched]), are recorded: afterwards
-      jj's record, the recorded Git ref and the backing repository's ref all equal the
-      remote's new value, which is the local bookmark; nothing is left unexported. *)
+  (** Accepted refs, and only those (see [C45_rejected_untouched]), are recorded, each under
+      its own (kind, name) key: afterwards jj's record (remote-tracking bookmark or tag), the
+      backing repository's ref and - for bookmarks - the recorded Git ref all equal the
+      remote's new value, which is the local bookmark / tag; nothing is left unexported. *)
   Theorem C45_pushed_recorded : forall (v : jview) (remote backing : gmap) (names : list N) (n : N),
     NoDup names ->
     let q := push srv v remote backing names in
@@ -105,7 +106,8 @@ Section Recorded.
     /\ (In n (q_pushed q) ->
         resolved (gget (q_remote q) n) = get (j_local v) n
         /\ tracked_target (rget (j_remote (q_view q)) n) = resolved (gget (q_remote q) n)
-        /\ get (j_grefs (q_view q)) n = resolved (gget (q_remote q) n)
+        /\ get (j_grefs (q_view q)) n =
+           (if is_tag n then get (j_grefs v) n else resolved (gget (q_remote q) n))
         /\ gget (q_backing q) n = gget (q_remote q) n).
   Proof. exact (pushed_recorded srv srv_accepted). Qed.
 End Recorded.
